@@ -54,8 +54,40 @@ class PrfTap:
 
     def __enter__(self):
         tap = self
+        import sys
+        import threading
+        inside = threading.local()
 
+        # (1) the library's own HMAC-SHA512 helper, under every name it was imported as (helper.hmac_sha512,
+        # bip32.hmac_sha512, bip85.hmac_sha512, ...): the substitution point the properties name.  Substituting
+        # here is independent of how the helper computes HMAC internally (one-shot, keyed-state reuse, ...).
+        self._named = []
+        helper = sys.modules.get("btc_hd_wallet.helper")
+        orig = getattr(helper, "hmac_sha512", None) if helper else None
+        if orig is not None and not getattr(orig, "_prf_tap", False):
+            def hmac_sha512(key, msg):
+                k, m = bytes(key), bytes(msg)
+                out = tap.chosen(k, m) if tap.chosen else None
+                if out is not None:
+                    tap.queries.append({"key": k, "msg": m, "out": out, "alg": "sha512", "chosen": True})
+                    return out
+                inside.on = True
+                try:
+                    out = orig(key, msg)
+                finally:
+                    inside.on = False
+                tap.queries.append({"key": k, "msg": m, "out": bytes(out), "alg": "sha512", "chosen": False})
+                return out
+            hmac_sha512._prf_tap = True
+            for name, mod in list(sys.modules.items()):
+                if mod is not None and name.startswith("btc_hd_wallet") and getattr(mod, "hmac_sha512", None) is orig:
+                    self._named.append((mod, orig))
+                    mod.hmac_sha512 = hmac_sha512
+
+        # (2) the standard library underneath (code that calls hmac directly)
         def new(key, msg=None, digestmod=""):
+            if getattr(inside, "on", False):
+                return _REAL_NEW(key, msg, digestmod)
             alg = tap._alg(digestmod)
             k, m = bytes(key), (bytes(msg) if msg is not None else b"")
             out = tap.chosen(k, m) if (tap.chosen and alg == "sha512") else None
@@ -68,6 +100,8 @@ class PrfTap:
             return h
 
         def digest(key, msg, digest):
+            if getattr(inside, "on", False):
+                return _REAL_DIGEST(key, msg, digest)
             alg = tap._alg(digest)
             k, m = bytes(key), bytes(msg)
             out = tap.chosen(k, m) if (tap.chosen and alg == "sha512") else None
@@ -85,6 +119,9 @@ class PrfTap:
     def __exit__(self, *a):
         _hmac.new = _REAL_NEW
         _hmac.digest = _REAL_DIGEST
+        for mod, orig in self._named:
+            mod.hmac_sha512 = orig
+        self._named = []
         return False
 
     def sha512_queries(self):
